@@ -26,9 +26,8 @@ are wired through a joint trace.  By structural induction over the tree every su
 distinct input uids satisfies the trace contract `Sat (outs t)`: the members' contracts (induction
 hypothesis) make every member step a legal box step, the node contract (`C02_node_*`) does the rest,
 and each node hands every uid to a member at most once, so the proviso is passed down.
-Not lifted to whole trees: completeness ("exactly one at rest") — it is proved per node
-(`C02_node_*`, `C02_seq_complete`); for a whole tree it additionally needs a fairness / quiescence
-notion across nodes.
+`C02_tree_exactly_one`: in a behaviour that has come to rest (`TrQ`: every real queue empty, nothing
+held, no call running, nothing waiting to be put) every request that entered has exactly one answer.
 -/
 namespace Servlet
 
@@ -126,10 +125,31 @@ theorem C02_tree_own_result (t : Tree) (hw : WF t) (σ : List Ev) (htr : Tr t σ
   have : x' = x := fst_unique hd (mem_filterMap_inpOf.mpr h1) (mem_filterMap_inpOf.mpr hx)
   exact ⟨this ▸ h2, hs.out_unique⟩
 
+/-- **whole tree, exactly one**: in every behaviour of every concrete tree that has come to rest,
+    with distinct input uids, every request that entered has an answer, it is an allowed outcome of its
+    own input, and it is its only answer -/
+theorem C02_tree_exactly_one (t : Tree) (hw : WF t) (σ : List Ev) (htr : TrQ t σ) (hd : DistinctIn σ)
+    (u : Nat) (x : Val) (hx : Ev.inp (u, x) ∈ σ) :
+    ∃ y, Ev.out (u, y) ∈ σ ∧ y ∈ outs t x ∧ ∀ y', Ev.out (u, y') ∈ σ → y' = y := by
+  obtain ⟨y, hy⟩ := tree_complete t hw σ htr hd u x hx
+  have hs := tree_sat t hw σ (trq_tr t σ htr) hd
+  obtain ⟨h1, _⟩ := C02_tree_own_result t hw σ (trq_tr t σ htr) hd u x y hx hy
+  refine ⟨y, hy, h1, fun y' hy' => ?_⟩
+  exact fst_unique hs.out_unique (mem_filterMap_outOf.mpr hy') (mem_filterMap_outOf.mpr hy)
+
 /-! non-vacuity of `C02_tree`: a concrete behaviour of an ensemble of two simple servlets (member 1
     answers before member 0) -/
 def wEx (k : Nat) : WSpec :=
   { pre := id, f := fun x => .cons x (.nat k), bs := 0, bfail := fun _ => .none, berrs := [], nw := 1 }
+
+example : TrQ (.ens [.worker (wEx 1), .worker (wEx 2)] false)
+    [.inp (5, .nat 7), .out (5, ofList [.cons (.nat 7) (.nat 1), .cons (.nat 7) (.nat 2)])] := by
+  simp only [TrQ, TrQAll]
+  exact ⟨[.node (.arrive (5, .nat 7)), .node .enq, .node (.memberOut 1 (.cons (.nat 7) (.nat 2))),
+          .node (.memberOut 0 (.cons (.nat 7) (.nat 1))), .node (.deq 0), .node (.deq 0), .node (.emit 0)],
+         _, rfl, rfl, rfl, rfl, rfl,
+         ⟨[.arrive (5, .nat 7), .take, .start [true], .finish 0, .emit 0], _, rfl, rfl, by decide⟩,
+         ⟨[.arrive (5, .nat 7), .take, .start [true], .finish 0, .emit 0], _, rfl, rfl, by decide⟩, trivial⟩
 
 example : Tr (.ens [.worker (wEx 1), .worker (wEx 2)] false)
     [.inp (5, .nat 7), .out (5, ofList [.cons (.nat 7) (.nat 1), .cons (.nat 7) (.nat 2)])] := by
